@@ -35,6 +35,7 @@ type xval struct {
 	n      int  // container length
 	notAmb bool // result of `not` on a non-bool: printed form has accepted alternatives
 	notSrc xkind
+	exo    bool // leaf of a pointer, sized or named non-integer type: equality and list membership compare Go values (cross-type, not judged)
 	zamb   bool // string that contains the printed form of a float zero (its sign is unspecified)
 }
 
@@ -58,8 +59,19 @@ func c07Ctx() pongo2.Context {
 		"le": []int{},
 		"ct": func() bool { atomic.AddInt64(&c07Calls, 1); return true },
 		"cf": func() bool { atomic.AddInt64(&c07Calls, 1); return false },
+		// the same four kinds behind pointers, sized and named types
+		"pf25": &c07pf, "pi3": &c07pi, "ps": &c07ps, "pbt": &c07pb,
+		"f32": float32(1.5), "i64n": int64(-2), "u16": uint16(5), "nf": c07NF(0.25), "ni": c07NI(4), "ns": c07NS("a"), "nb": c07NB(true),
 	}
 }
+
+type c07NF float64
+type c07NI int
+type c07NS string
+type c07NB bool
+
+var c07pf, c07pi, c07ps, c07pb = 2.5, 3, "a", true
+
 
 func leafI(t string, v int64) *xnode   { return &xnode{text: t, val: xval{k: kI, i: v}} }
 func leafF(t string, v float64) *xnode { return &xnode{text: t, val: xval{k: kF, f: v}} }
@@ -78,7 +90,13 @@ var c07FullLeaves = []*xnode{
 	{text: "li", val: xval{k: kLI, n: 3}}, {text: "ls", val: xval{k: kLS, n: 2}}, {text: "m", val: xval{k: kM, n: 1}},
 	{text: "ct()", val: xval{k: kB, b: true}, call: 1}, {text: "cf()", val: xval{k: kB, b: false}, call: 2},
 	{text: "[1, 2, 3]", val: xval{k: kLI, n: 3}}, {text: "[\"a\", \"b\"]", val: xval{k: kLS, n: 2}},
+	// the four kinds behind pointers, sized and named types
+	leafI("pi3", 3), leafI("i64n", -2), leafI("u16", 5), leafI("ni", 4),
+	exo(leafF("pf25", 2.5)), exo(leafF("f32", 1.5)), exo(leafF("nf", 0.25)),
+	exo(leafS("ps", "a")), exo(leafS("ns", "a")), exo(leafB("pbt", true)), exo(leafB("nb", true)),
 }
+
+func exo(n *xnode) *xnode { n.val.exo = true; return n }
 
 var c07SmallLeaves = []*xnode{leafI("2", 2), leafI("i0", 0), leafF("0.5", 0.5), leafB("bt", true), leafS(`"a"`, "a")}
 
@@ -318,7 +336,7 @@ func (e *xeval) eval(n *xnode) (xval, xstatus) {
 		}
 		return xval{k: kB, b: b}, stOK
 	case "==", "!=":
-		if l.k != r.k || l.k > kB || l.zamb || r.zamb {
+		if l.k != r.k || l.k > kB || l.zamb || r.zamb || l.exo || r.exo {
 			return l, stUnjudged
 		}
 		var eq bool
@@ -337,7 +355,7 @@ func (e *xeval) eval(n *xnode) (xval, xstatus) {
 		}
 		return xval{k: kB, b: eq}, stOK
 	case "in":
-		if l.zamb || r.zamb {
+		if l.zamb || r.zamb || (l.exo && r.k != kS) {
 			return l, stUnjudged
 		}
 		switch {
@@ -844,7 +862,7 @@ func init() {
 			return a + b + r
 		},
 		Run: c07Run,
-		Rule: "expression trees over {+ - * / % ^ == != < <= > >= in and or, unary - and not}: exhaustively all trees of depth <= 2 over 29 leaves (int/float/string/bool literals and variables incl. uint8, negative and zero values, lists, a map, counting calls), " +
+		Rule: "expression trees over {+ - * / % ^ == != < <= > >= in and or, unary - and not}: exhaustively all trees of depth <= 2 over 40 leaves (int/float/string/bool literals and variables incl. uint8, negative and zero values, lists, a map, counting calls), " +
 			"all (thorough) or every 8th (quick, offset by seed) depth-3 tree over 5 leaves, plus kind-directed random trees of depth <= 8; each printed with minimal parentheses for the property's precedence table in a canonical and in random layouts (spacing, and/&&, or/||, not/!, !=/<>, quote style), in {{ }} and in {% if %}; " +
 			"an independent evaluator of the tree gives the expected value / error / number of calls of the counting functions (short-circuit). Trees outside the judged fragment (kind mismatches, overflow, NaN) are counted as unjudged. distinct_nontrivial = distinct judged trees.",
 		MinNontriv:  1000,
